@@ -22,7 +22,7 @@ MANIFEST = {
             '{iterator, generator, lazy __getitem__ sequence} x length '
             '{0..12 subset, unbounded} x body {item, item + all batch '
             'variables, next form, previous form, previous-batches, all '
-            'positional and grouping variables} is rendered on the real '
+            'positional and grouping variables, a nested loop over the same name} is rendered on the real '
             'code; the supplier logs its pulls: never more than min(length, '
             'window end + step size + orphan), each element once and in '
             'order, __len__ never called on an unbounded supplier, the '
@@ -35,7 +35,7 @@ MANIFEST = {
 }
 RULE = ('start, end in -1..10 (quick) / -1..16 (thorough), size -1..5 / '
         '-1..7, orphan 0..3 / 0..4, overlap 0..3 x 3 suppliers x lengths '
-        '{0,1,2,3,5,8,12,unbounded} (thorough: 0..12, unbounded) x 6 bodies; '
+        '{0,1,2,3,5,8,12,unbounded} (thorough: 0..12, unbounded) x 7 bodies; '
         'plus unbatched renders of bounded suppliers.  A run is non-trivial '
         'when the supplier holds more elements than the bound allows to '
         'pull (so a len()/list() would be visible).')
@@ -141,6 +141,11 @@ BODIES = {
     'prevb': ('<dtml-var sequence-item><dtml-in previous-batches mapping>'
               '(<dtml-var batch-start-index>-<dtml-var batch-end-index>-'
               '<dtml-var batch-size>)</dtml-in>,' + STEP),
+    # the body uses the same name again: a nested loop over the first
+    # element (the "head of the list" / previous-next link idiom)
+    'nested': ('<dtml-var sequence-item><dtml-if sequence-end><dtml-in seq '
+               'size=1 start=1>(<dtml-var sequence-item>)</dtml-in>'
+               '</dtml-if>,' + STEP),
     'vars': ('<dtml-var sequence-item>:<dtml-var sequence-index>:'
              '<dtml-var sequence-letter>:<dtml-var sequence-Letter>:'
              '<dtml-var sequence-roman>:<dtml-var sequence-Roman>:'
@@ -183,8 +188,9 @@ def cases(tier):
         for sup in ('iter', 'gen', 'lazy'):
             if L != INF:
                 yield {'body': 'unbatched', 'L': L, 'sup': sup}
-            for body in ('item', 'full', 'next', 'previous', 'prevb', 'vars'):
-                if body in ('prevb', 'vars') and sup == 'gen':
+            for body in ('item', 'full', 'next', 'previous', 'prevb', 'vars',
+                         'nested'):
+                if body in ('prevb', 'vars', 'nested') and sup == 'gen':
                     continue        # a generator behaves as the iterator
                 for size in g['size']:
                     for orphan in g['orphan']:
@@ -228,6 +234,8 @@ def one(res, case, start, end, overlap):
         return L == INF
     s, e, sz, orph = map(int, m.groups())
     bound = e + sz + orph
+    if body == 'nested':
+        bound = max(bound, 2)   # the inner loop: element 1 + one look-ahead
     if L != INF:
         bound = min(bound, L)
     if overlap >= sz:
